@@ -21,7 +21,7 @@ PROPERTY = 'C10'
 LEVEL = 'exploration'
 EXHAUSTIVE = True
 RULE = ('session = banner, EHLO/LHLO, MAIL, RCPT x n (n=1..3), DATA, content|empty content, RSET, custom NOOP, QUIT; '
-        'reply script = one class from {2xx,4xx,5xx} (DATA: {354,4xx,5xx}) per command -- all assignments consistent with a '
+        'reply script = one class from {2xx,4xx,5xx} (RCPT also 3xx; DATA: {354,4xx,5xx}) per command -- all assignments consistent with a '
         'server (DATA refused when no recipient accepted; LMTP: one end-of-data reply per accepted recipient, each '
         'with its own class), quick: at most 2 non-success classes, thorough: all -- x line counts cycling 1..3 x '
         'PIPELINING on/off x SMTP/LMTP; replies become readable only after their command was sent.  Each script is '
@@ -45,7 +45,7 @@ def wire(code, tag, nlines):
     return out, '\r\n'.join(lines)
 
 
-CODE = {'2': '250', '4': '450', '5': '550', '3': '354'}
+CODE = {'2': '250', '4': '450', '5': '550', '3': '354', '1': '150'}
 
 
 def build_script(cfg):
@@ -73,7 +73,7 @@ def build_script(cfg):
     add('ehlo', '250', (w, 'mx'))
     add('mail', CODE[mail_c])
     for i in range(n):
-        add('rcpt%d' % i, CODE[rcpt_c[i]])
+        add('rcpt%d' % i, '350' if rcpt_c[i] == '3' else CODE[rcpt_c[i]])
     add('data', CODE[data_c])
     if data_c == '3':
         if cfg['lmtp']:
@@ -214,14 +214,14 @@ def scripts(tier):
             for n in (1, 2, 3):
                 for empty in (False, True):
                     for mail_c in '245':
-                        for rc in itertools.product('245', repeat=n):
+                        for rc in itertools.product('2453' if n <= 2 else '245', repeat=n):
                             nacc = sum(1 for x in rc if x == '2')
                             data_opts = '345' if (nacc and mail_c == '2') else '5'
                             for data_c in data_opts:
                                 n_end = (nacc if lmtp else 1) if data_c == '3' else 0
                                 for ec in itertools.product('245', repeat=n_end):
                                     classes = (mail_c,) + rc + (data_c,) + ec
-                                    dev = sum(1 for x in classes if x not in '23')
+                                    dev = (mail_c != '2') + sum(1 for x in rc if x != '2') + (data_c != '3') + sum(1 for x in ec if x != '2')
                                     if tier == 'quick' and dev > 2:
                                         continue
                                     if empty and dev > 1 and tier == 'quick':
@@ -234,7 +234,9 @@ def run_script(cfg, tier, res):
     script = build_script(cfg)
     body, make_sock, stream = make_body(cfg, script)
     outs = set()
-    dev = sum(1 for x in cfg['classes'] if x not in '23')
+    n_ = cfg['n']
+    cl = cfg['classes']
+    dev = (cl[0] != '2') + sum(1 for x in cl[1:1 + n_] if x != '2') + (cl[1 + n_] != '3') + sum(1 for x in cl[2 + n_:] if x != '2')
     if (tier == 'thorough' and dev <= 1) or (tier == 'quick' and dev == 0 and cfg['n'] <= 2):
         ex = AllSegmentations(body, stream, make_sock=make_sock)
         outs |= ex.explore()
